@@ -315,7 +315,16 @@ pub fn run_line(line: &str, out: &mut String) {
                     format!("c1/{}/{}/0", n, 1 + n)
                 }
                 "drop_owner" => {
-                    unique = None;
+                    if turn % 2 == 0 {
+                        unique = None;
+                    } else {
+                        // dropped while a panic unwinds (the owner's task panicked): still a drop
+                        let u = unique.take();
+                        let _ = std::panic::catch_unwind(std::panic::AssertUnwindSafe(move || {
+                            let _keep = u;
+                            panic!("owner panics")
+                        }));
+                    }
                     "()".into()
                 }
                 "into_shared" => {
@@ -440,7 +449,15 @@ pub fn run_line(line: &str, out: &mut String) {
                     "()".into()
                 }
                 "drop_owner" => {
-                    owners.remove(idx);
+                    let gone = owners.remove(idx);
+                    if turn % 2 == 0 {
+                        drop(gone);
+                    } else {
+                        let _ = std::panic::catch_unwind(std::panic::AssertUnwindSafe(move || {
+                            let _keep = gone;
+                            panic!("owner panics")
+                        }));
+                    }
                     "()".into()
                 }
                 _ => unreachable!(),
